@@ -441,6 +441,12 @@ func mkLen(x *Val) *Val {
 		}
 	case "arraylit":
 		return mkInt(int64(len(x.Args)))
+	case "availbuf":
+		return mkInt(0)
+	case "bufnext":
+		if len(x.Args) >= 2 {
+			return x.Args[1]
+		}
 	case "alloc":
 		// pointer to a fixed-size array (the base of arr[:])
 		if p, ok := x.Type.(*types.Pointer); ok {
